@@ -717,5 +717,5 @@ func names(hs []bc.Hash, name func(bc.Hash) string) []string {
 func TestC22(t *testing.T) {
 	pbt.Run(t, "C22",
 		"1..7 transactions over 1..4 external outputs (each confirmed or forever missing); each tx has 1..3 inputs drawn from external outputs and original outputs of earlier txs (chains, diamonds, multi-parent children, shared inputs) and 1..3 outputs (original or retirement); 1..18 ops: submit (any order, with a generated orphan expiry), remove, ExpireOrphan(t), confirm-in-block (store update + RemoveTransaction); after every op pool/utxo/orphans/orphansByPrev are compared with a model of sets (S0-S5 in the source); non-trivial = a transaction with >= 2 distinct inputs was registered as an orphan; distinct by case",
-		pbt.Options{Checks: pbt.Per(30000, 1200000)}, c22Gen, c22Exec)
+		pbt.Options{Checks: pbt.Per(30000, 3600000)}, c22Gen, c22Exec)
 }
